@@ -1,0 +1,54 @@
+//go:build verif
+
+package s2
+
+import (
+	"github.com/golang/geo/r2"
+	"github.com/golang/geo/r3"
+)
+
+// Thin wrappers exporting unexported functions to the verification harness (property C01).
+// Add-only; no behaviour of the package changes.
+
+func VerifC01LookupPos() [1 << (2*lookupBits + 2)]int { return lookupPos }
+func VerifC01LookupIJ() [1 << (2*lookupBits + 2)]int  { return lookupIJ }
+func VerifC01PosToIJ() [4][4]int                      { return posToIJ }
+func VerifC01IJToPos() [4][4]int                      { return ijToPos }
+func VerifC01PosToOrientation() [4]int                { return posToOrientation }
+
+func VerifC01Lsb(ci CellID) uint64                            { return ci.lsb() }
+func VerifC01LsbForLevel(level int) uint64                    { return lsbForLevel(level) }
+func VerifC01IsFace(ci CellID) bool                           { return ci.isFace() }
+func VerifC01ImmediateParent(ci CellID) CellID                { return ci.immediateParent() }
+func VerifC01DistanceFromBegin(ci CellID) int64               { return ci.distanceFromBegin() }
+func VerifC01SizeIJ(level int) int                            { return sizeIJ(level) }
+func VerifC01FindLSB(x uint64) int                            { return findLSBSetNonZero64(x) }
+func VerifC01FindMSB(x uint64) int                            { return findMSBSetNonZero64(x) }
+func VerifC01StToUV(s float64) float64                        { return stToUV(s) }
+func VerifC01UVToST(u float64) float64                        { return uvToST(u) }
+func VerifC01StToIJ(s float64) int                            { return stToIJ(s) }
+func VerifC01SiTiToST(si uint32) float64                      { return siTiToST(si) }
+func VerifC01StToSiTi(s float64) uint32                       { return stToSiTi(s) }
+func VerifC01IJToSTMin(i int) float64                         { return ijToSTMin(i) }
+func VerifC01Face(r r3.Vector) int                            { return face(r) }
+func VerifC01XYZToFaceUV(r r3.Vector) (int, float64, float64) { return xyzToFaceUV(r) }
+func VerifC01ValidFaceXYZToUV(f int, r r3.Vector) (float64, float64) {
+	return validFaceXYZToUV(f, r)
+}
+func VerifC01FaceXYZToUV(f int, p Point) (float64, float64, bool) { return faceXYZToUV(f, p) }
+func VerifC01FaceUVToXYZ(f int, u, v float64) r3.Vector           { return faceUVToXYZ(f, u, v) }
+func VerifC01IJLevelToBoundUV(i, j, level int) r2.Rect            { return ijLevelToBoundUV(i, j, level) }
+func VerifC01CellIDFromFaceIJ(f, i, j int) CellID                 { return cellIDFromFaceIJ(f, i, j) }
+func VerifC01CellIDFromFaceIJWrap(f, i, j int) CellID             { return cellIDFromFaceIJWrap(f, i, j) }
+func VerifC01CellIDFromFaceIJSame(f, i, j int, same bool) CellID {
+	return cellIDFromFaceIJSame(f, i, j, same)
+}
+func VerifC01FaceIJOrientation(ci CellID) (int, int, int, int) { return ci.faceIJOrientation() }
+func VerifC01CellIDFromPoint(p Point) CellID                   { return cellIDFromPoint(p) }
+func VerifC01FaceSiTi(ci CellID) (int, uint32, uint32)         { return ci.faceSiTi() }
+func VerifC01CenterFaceSiTi(ci CellID) (int, int, int)         { return ci.centerFaceSiTi() }
+
+// VerifC01CellFields exposes the fields of a Cell that CellFromCellID computes.
+func VerifC01CellFields(c Cell) (face, level, orientation int, id CellID, uv r2.Rect) {
+	return int(c.face), int(c.level), int(c.orientation), c.id, c.uv
+}
